@@ -98,9 +98,9 @@ type recInst struct {
 	calls []string
 }
 
-func (r *recInst) rec(s string) { r.mu.Lock(); r.calls = append(r.calls, s); r.mu.Unlock() }
-func (r *recInst) ID() int       { return r.id }
-func (r *recInst) ParentID() int { return 0 }
+func (r *recInst) rec(s string)       { r.mu.Lock(); r.calls = append(r.calls, s); r.mu.Unlock() }
+func (r *recInst) ID() int            { return r.id }
+func (r *recInst) ParentID() int      { return 0 }
 func (r *recInst) ShutdownAdmin()     { r.rec("ShutdownAdmin") }
 func (r *recInst) DrainListeners()    { r.rec("DrainListeners") }
 func (r *recInst) ShutdownLocalConf() { r.rec("ShutdownLocalConf") }
